@@ -1,6 +1,7 @@
 package main
 
 import (
+	"go/ast"
 	"fmt"
 	"go/types"
 	"sort"
@@ -61,6 +62,8 @@ type catchAnalysis struct {
 	ctors  map[*ssa.Function]fieldSet // constructor -> flags definitely stored false
 	cleanMemo map[*ssa.Function]map[int]map[*types.Var]bool // fn -> param idx -> flags definitely false at exit whatever the entry
 	cleanBusy map[*ssa.Function]bool
+	addIssueFlags   map[*types.Var]bool   // flags AddIssue (or an unexported helper of it) can set
+	addIssueHelpers map[*ssa.Function]bool // unexported SchemaCtx methods called from AddIssue
 }
 
 type dispatchSite struct {
@@ -85,31 +88,51 @@ func (P *Prog) newCatchAnalysis() *catchAnalysis {
 		}
 	}
 	ca.addIssue = P.fn("(*zog/internals.SchemaCtx).AddIssue")
-	// Is every store to Exit in AddIssue control-dependent on a load of CanCatch (true edge)?
+	// Is every store to Exit in AddIssue — or in a helper it calls, such as `c.swallow(e)` — control-dependent on
+	// a load of CanCatch (true edge), in the function of the store or at the call that leads to it?
 	if ca.addIssue != nil {
 		ca.addCond = true
-		nStores := 0
-		eachInstr(ca.addIssue, func(b *ssa.BasicBlock, _ int, in ssa.Instruction) {
-			st, ok := in.(*ssa.Store)
-			if !ok {
-				return
-			}
-			if _, f := fieldVar(st.Addr); f == nil || !sameField(f, R.FExit) {
-				return
-			}
-			nStores++
-			guarded := false
+		ca.addIssueFlags = map[*types.Var]bool{}
+		ca.addIssueHelpers = map[*ssa.Function]bool{}
+		underCanCatch := func(b *ssa.BasicBlock) bool {
 			for _, gd := range guardsOf(b) {
 				if _, f := loadOfField(cv(gd.If.Cond)); f != nil && sameField(f, R.FCanCatch) && gd.True {
-					guarded = true
+					return true
 				}
 			}
-			if !guarded {
-				ca.addCond = false
+			return false
+		}
+		var scan func(fn *ssa.Function, guarded bool, depth int)
+		scan = func(fn *ssa.Function, guarded bool, depth int) {
+			if depth > 3 || fn.Blocks == nil {
+				return
 			}
-		})
-		// any other flag store in AddIssue (e.g. CanCatch) makes it unconditional-dirty for that flag: handled by summary
-		_ = nStores
+			eachInstr(fn, func(b *ssa.BasicBlock, _ int, in ssa.Instruction) {
+				if st, ok := in.(*ssa.Store); ok {
+					if _, f := fieldVar(st.Addr); f != nil {
+						for _, fl := range ca.flags {
+							if !sameField(f, fl) {
+								continue
+							}
+							if c, isC := constBool(st.Val); isC && !c {
+								continue
+							}
+							ca.addIssueFlags[fl] = true
+							if sameField(fl, R.FExit) && !(guarded || underCanCatch(b)) {
+								ca.addCond = false
+							}
+						}
+					}
+					return
+				}
+				if ci := callOf(in); ci != nil && ci.static != nil && ci.static != fn && inModule(funcPkgPath(ci.static)) && ci.static.Signature.Recv() != nil &&
+					sameNamed(namedOf(ci.static.Signature.Recv().Type()), R.SchemaCtx) && !ast.IsExported(ci.static.Name()) {
+					ca.addIssueHelpers[ci.static] = true
+					scan(ci.static, guarded || underCanCatch(b), depth+1)
+				}
+			})
+		}
+		scan(ca.addIssue, false, 0)
 	}
 	// constructors: functions returning *SchemaCtx obtained from a pool
 	for _, fn := range P.Funcs {
@@ -613,23 +636,15 @@ func (ca *catchAnalysis) applyAddIssue(cur map[*types.Var]bool) {
 		if cur[R.FCanCatch] {
 			cur[R.FExit] = true
 		}
-		// other flags AddIssue may store unconditionally
-		eachInstr(ca.addIssue, func(_ *ssa.BasicBlock, _ int, in ssa.Instruction) {
-			if st, ok := in.(*ssa.Store); ok {
-				if _, f := fieldVar(st.Addr); f != nil {
-					for _, fl := range ca.flags {
-						if sameField(f, fl) && !sameField(f, R.FExit) {
-							if c, isC := constBool(st.Val); !(isC && !c) {
-								cur[fl] = true
-							}
-						}
-					}
-				}
+		// other flags AddIssue (or a helper of it) may store
+		for fl := range ca.addIssueFlags {
+			if !sameField(fl, R.FExit) {
+				cur[fl] = true
 			}
-		})
+		}
 		return
 	}
-	for fl := range ca.exitDirtyNoMemo(ca.addIssue) {
+	for fl := range ca.addIssueFlags {
 		cur[fl] = true
 	}
 }
